@@ -2,6 +2,7 @@
   C11 — the engine event stream is a well-formed, properly nested protocol.  Property theorems only.
 -/
 import SV.Proofs.Engine
+import SV.Proofs.EngineKi
 import SV.Proofs.Stateful
 import SV.Proofs.StatefulMachine
 import SV.Model.Plan
@@ -104,6 +105,60 @@ theorem unclosed_at_failure_limit :
   rw [List.all_eq_true] at h4
   have := h4 _ hmem
   simp at this
+
+/-- **The consumer's own Interrupted event** (a KeyboardInterrupt or a stop request seen by `unit.execute`), on every
+    schedule and with any number of workers: when it is in the stream the stop flag is set and the phase status is
+    INTERRUPTED; it is the last event of the still-open stream, and once the phase is closed only the two closing
+    events follow it, carrying INTERRUPTED whenever any worker event had been consumed. -/
+theorem consumer_interrupt_is_final (v : Variant) (ops : List Script) (n : Nat) (m : Option Nat) (s : St)
+    (hr : Reach v (init ops n m) s) (hmem : Ev.interrupted true ∈ s.c.out) :
+    s.c.ctl.stop = true ∧ s.c.status = some .interrupted ∧
+    ∃ o, Ev.interrupted true ∉ o ∧
+      ((s.c.pc = .closing ∧ s.c.out = o ++ [.interrupted true]) ∨
+       (s.c.pc = .done ∧ ∃ st ntt, s.c.out = o ++ [.interrupted true, .suiteFinished st, .phaseFinished st ntt] ∧
+          (s.c.executed = true → st = .interrupted))) := by
+  rcases (kiInv_reach v _ s hr (kiInv_init ops n m)).shape with hn | ⟨o, ho, hs, hst, hrest⟩
+  · exact absurd hmem hn
+  · exact ⟨hs, hst, o, ho, hrest⟩
+
+/-- the consumer announces an interruption at most once per phase, and never while it is still reading the queue -/
+theorem consumer_interrupt_at_most_once (v : Variant) (ops : List Script) (n : Nat) (m : Option Nat) (s : St)
+    (hr : Reach v (init ops n m) s) :
+    s.c.out.count (.interrupted true) ≤ 1 ∧
+    (s.c.pc ≠ .closing → s.c.pc ≠ .done → Ev.interrupted true ∉ s.c.out) := by
+  have inv := (kiInv_reach v _ s hr (kiInv_init ops n m)).shape
+  refine ⟨?_, fun h1 h2 => kiShape_open s.c inv h1 h2⟩
+  rcases inv with hn | ⟨o, ho, _, _, ⟨_, hout⟩ | ⟨_, st, ntt, hout, _⟩⟩
+  · rw [List.count_eq_zero.2 hn]; omega
+  · rw [hout, List.count_append, List.count_eq_zero.2 ho]; simp
+  · rw [hout, List.count_append, List.count_eq_zero.2 ho]; simp
+
+/-- workers never put the consumer's marker on the queue (their own Interrupted is a different report) -/
+theorem workers_never_report_consumer_interrupt (v : Variant) (ops : List Script) (n : Nat) (m : Option Nat) (s : St)
+    (hr : Reach v (init ops n m) s) : ∀ e ∈ s.queue, e ≠ .interrupted true :=
+  (kiInv_reach v _ s hr (kiInv_init ops n m)).queue
+
+/-- non-vacuity: Ctrl-C right after SuiteStarted, the worker sees the stop flag and exits, the phase is closed -/
+example : ∃ s, Reach .repaired (init [⟨1, 1, 0, .success, false⟩] 1 none) s ∧ s.c.pc = .done ∧
+    s.c.out = [.suiteStarted, .interrupted true, .suiteFinished .skip, .phaseFinished .skip true] := by
+  have h : ∃ s, fireAll .repaired (init [⟨1, 1, 0, .success, false⟩] 1 none) [.cStart, .cKi, .worker 0, .cJoined] = some s ∧
+      s.c.pc = .done ∧
+      s.c.out = [.suiteStarted, .interrupted true, .suiteFinished .skip, .phaseFinished .skip true] := by decide
+  obtain ⟨s, hf, h1, h2⟩ := h
+  exact ⟨s, fireAll_reach _ _ _ s _ Reach.refl hf, h1, h2⟩
+
+/-- non-vacuity of the executed arm: a stop request seen after one consumed event closes the phase as INTERRUPTED -/
+example : ∃ s, Reach .repaired (init [⟨1, 1, 0, .success, false⟩] 1 none) s ∧ s.c.pc = .done ∧ s.c.executed = true ∧
+    s.c.out = [.suiteStarted, .scenStarted 1, .interrupted true, .suiteFinished .interrupted,
+               .phaseFinished .interrupted false] := by
+  have h : ∃ s, fireAll .repaired (init [⟨1, 1, 0, .success, false⟩] 1 none)
+      [.cStart, .worker 0, .worker 0, .worker 0, .cGot false, .worker 0, .envStop, .worker 0, .worker 0, .worker 0,
+       .worker 0, .cGot false, .worker 0, .cJoined] = some s ∧
+      s.c.pc = .done ∧ s.c.executed = true ∧
+      s.c.out = [.suiteStarted, .scenStarted 1, .interrupted true, .suiteFinished .interrupted,
+                 .phaseFinished .interrupted false] := by decide
+  obtain ⟨s, hf, h1, h2, h3⟩ := h
+  exact ⟨s, fireAll_reach _ _ _ s _ Reach.refl hf, h1, h2, h3⟩
 
 /-! ### the plan: phases in order, each opened and closed once -/
 
